@@ -1,5 +1,6 @@
 import DFV.Lemmas.C01
 import DFV.Lemmas.Rounding
+import DFV.Model.C01
 /-!
 # C01 — mesh cells tile the region; index ↔ coordinate maps are mutually inverse
 
@@ -406,6 +407,180 @@ theorem indices_entry (ns : List Nat) (k : Nat) (hk : k < natProd ns) :
   rw [List.getD_eq_getElem?_getD, List.getElem?_map, List.getElem?_range hk]
   simp only [Option.map_some, Option.getD_some]
   exact flatF_unflatF ns k hk
+
+/-! ## round 3: list-level tiling, iteration, coordinate field, volume -/
+
+/-- the half-open cell `i` of the lattice, last cell closed (spec of "the cell contains the point") -/
+def inCell (m : Mesh) (i : List Nat) (p : List Rat) : Prop :=
+  ∀ a, a < m.ndim →
+    m.region.lo a + (i.getD a 0 : Rat) * m.cellAt a ≤ p.getD a 0 ∧
+    (p.getD a 0 < m.region.lo a + ((i.getD a 0 : Rat) + 1) * m.cellAt a ∨
+      (i.getD a 0 = m.nAt a - 1 ∧ p.getD a 0 = m.region.hi a))
+
+/-- **Any point of the region maps to an in-range index whose cell contains the point**
+(every dimension; lower faces inclusive, the last cell also upper-inclusive). -/
+theorem point_index_contains (m : Mesh) (hm : m.Inv) (p : List Rat) (hp : m.region.containsExact p) :
+    ∃ i, m.point2index p = .ok i ∧ inRange m.n i = true ∧ inCell m i p := by
+  obtain ⟨hr, hn, hpos⟩ := hm
+  have hlohi : ∀ a, a < m.ndim → m.region.lo a < m.region.hi a := fun a ha => hr.2.2.2.2.2 a ha
+  refine ⟨tab m.ndim fun a => m.indexAx a (p.getD a 0), ?_, ?_, ?_⟩
+  · unfold point2index
+    have h1 : p.length = m.ndim := hp.1
+    rw [if_neg (not_not.mpr h1), containsPt_of_exact _ _ hp]
+    simp
+  · apply inRange_of_getD
+    · rw [tab_length, hn]; rfl
+    · intro a ha
+      have ha' : a < m.ndim := by rw [hn] at ha; exact ha
+      rw [getD_tab _ _ _ _ ha']
+      exact (index_contains_axis m a _ (hpos a ha') (hlohi a ha') (hp.2 a ha').1 (hp.2 a ha').2).1
+  · intro a ha
+    rw [getD_tab _ _ _ _ ha]
+    exact (index_contains_axis m a _ (hpos a ha) (hlohi a ha) (hp.2 a ha).1 (hp.2 a ha).2).2
+
+/-- **The cells cover the region exactly once**: every point of the half-open box
+`[pmin, pmax)` lies in exactly one half-open cell `[pmin + i·cell, pmin + (i+1)·cell)`. -/
+theorem cover_exactly_once (m : Mesh) (hm : m.Inv) (p : List Rat) (hl : p.length = m.ndim)
+    (hp : ∀ a, a < m.ndim → m.region.lo a ≤ p.getD a 0 ∧ p.getD a 0 < m.region.hi a) :
+    ∃ i, (inRange m.n i = true ∧ ∀ a, a < m.ndim →
+            m.region.lo a + (i.getD a 0 : Rat) * m.cellAt a ≤ p.getD a 0 ∧
+            p.getD a 0 < m.region.lo a + ((i.getD a 0 : Rat) + 1) * m.cellAt a) ∧
+      ∀ j, (inRange m.n j = true ∧ ∀ a, a < m.ndim →
+            m.region.lo a + (j.getD a 0 : Rat) * m.cellAt a ≤ p.getD a 0 ∧
+            p.getD a 0 < m.region.lo a + ((j.getD a 0 : Rat) + 1) * m.cellAt a) → j = i := by
+  have hm' := hm
+  obtain ⟨hr, hn, hpos⟩ := hm
+  have hlohi : ∀ a, a < m.ndim → m.region.lo a < m.region.hi a := fun a ha => hr.2.2.2.2.2 a ha
+  obtain ⟨i, _, hir, hic⟩ := point_index_contains m hm' p ⟨hl, fun a ha => ⟨(hp a ha).1, (hp a ha).2.le⟩⟩
+  have hcell : ∀ a, a < m.ndim →
+      m.region.lo a + (i.getD a 0 : Rat) * m.cellAt a ≤ p.getD a 0 ∧
+      p.getD a 0 < m.region.lo a + ((i.getD a 0 : Rat) + 1) * m.cellAt a := by
+    intro a ha
+    refine ⟨(hic a ha).1, ?_⟩
+    rcases (hic a ha).2 with h | ⟨_, h⟩
+    · exact h
+    · exact absurd h (ne_of_lt (hp a ha).2)
+  refine ⟨i, ⟨hir, hcell⟩, ?_⟩
+  intro j ⟨hjr, hjc⟩
+  apply list_eq_of_getD j i 0
+  · rw [inRange_length _ _ hjr, inRange_length _ _ hir]
+  · intro a ha
+    have ha' : a < m.ndim := by rw [inRange_length _ _ hjr, hn] at ha; exact ha
+    exact cell_unique (m.region.lo a) (m.cellAt a) (p.getD a 0) (cell_pos m a (hpos a ha') (hlohi a ha')) _ _
+      (hjc a ha') (hcell a ha')
+
+/-- distinct cells have distinct centres -/
+theorem centre_injective (m : Mesh) (hm : m.Inv) (i j : List Nat) (hi : inRange m.n i = true)
+    (hj : inRange m.n j = true) (h : m.centre i = m.centre j) : i = j := by
+  have h1 := roundtrip m hm i hi
+  have h2 := roundtrip m hm j hj
+  rw [h] at h1
+  rw [h1] at h2
+  injection h2
+
+/-- `index2point` of an in-range index is the centre used by the spec layer -/
+theorem index2point_centre (m : Mesh) (hm : m.Inv) (i : List Nat) (hi : inRange m.n i = true) :
+    m.index2point (i.map Int.ofNat) = .ok (m.centre i) := by
+  obtain ⟨hr, hn, hpos⟩ := hm
+  have hlen : i.length = m.ndim := by rw [inRange_length m.n i hi, hn]; rfl
+  have hg : ∀ a, a < m.ndim → (i.map Int.ofNat).getD a 0 = ((i.getD a 0 : Nat) : Int) := by
+    intro a ha
+    have : a < i.length := by rw [hlen]; exact ha
+    simp [List.getD_eq_getElem?_getD, List.getElem?_map, List.getElem?_eq_getElem this]
+  unfold index2point
+  rw [if_neg (by simp [hlen])]
+  have : allLt m.ndim (fun a => decide (0 ≤ (i.map Int.ofNat).getD a 0) && decide ((i.map Int.ofNat).getD a 0 < (m.nAt a : Int))) = true := by
+    rw [allLt_iff]; intro a ha
+    rw [hg a ha]
+    have := inRange_getD m.n i hi a (by rw [hn]; exact ha)
+    have h2 : ((i.getD a 0 : Nat) : Int) < (m.nAt a : Int) := by exact_mod_cast this
+    have h1 : (0 : Int) ≤ ((i.getD a 0 : Nat) : Int) := Int.natCast_nonneg _
+    rw [decide_eq_true h1, decide_eq_true h2]; rfl
+  rw [this]
+  simp only [Bool.not_true, Bool.false_eq_true, if_false]
+  congr 1
+  unfold centre
+  apply tab_congr; intro a ha
+  rw [hg a ha]
+
+/-- `Mesh.__iter__` yields the cell centres in first-dimension-fastest order: the `k`-th point
+is the centre of the cell whose flat index is `k`, and there are `len(mesh) = Π n` of them. -/
+theorem iter_refines (m : Mesh) : m.iter = (List.range m.len).map fun k => m.centre (unflatF m.n k) := by
+  unfold iter len
+  rw [indices_refines]
+  simp [indicesF, List.map_map, Function.comp_def]
+
+theorem iter_length (m : Mesh) : m.iter.length = m.len := by
+  rw [iter_refines]; simp
+
+/-- per-axis lists have `n` centres and `n + 1` vertices -/
+theorem cells_vertices_length (m : Mesh) (a : Nat) (ha : a < m.ndim) :
+    (m.cells.getD a []).length = m.nAt a ∧ (m.vertices.getD a []).length = m.nAt a + 1 := by
+  unfold cells vertices
+  rw [getD_tab _ _ _ _ ha, getD_tab _ _ _ _ ha]
+  unfold linspace
+  constructor
+  · split
+    · next h => simp [h]
+    · simp
+  · split
+    · next h => simp [h]
+    · simp
+
+/-- every centre is the midpoint of its two neighbouring vertices, and consecutive vertices are
+one cell apart: centres, vertices and `cell` describe one lattice -/
+theorem centre_between_vertices (m : Mesh) (a : Nat) (ha : a < m.ndim) (hn : 0 < m.nAt a) (j : Nat) (hj : j < m.nAt a) :
+    (m.cells.getD a []).getD j 0 = ((m.vertices.getD a []).getD j 0 + (m.vertices.getD a []).getD (j + 1) 0) / 2 ∧
+    (m.vertices.getD a []).getD (j + 1) 0 - (m.vertices.getD a []).getD j 0 = m.cellAt a := by
+  rw [cells_eq_centres m a ha hn j hj, vertices_eq_faces m a ha hn j (by omega),
+    vertices_eq_faces m a ha hn (j + 1) (by omega)]
+  push_cast
+  constructor <;> ring
+
+/-- **The coordinate field describes the same lattice**: its value in cell `idx` is the centre
+of cell `idx` (`pmin + (idx + ½)·cell`), for every in-range index. -/
+theorem coord_field_centre (m : Mesh) (hm : m.Inv) (idx : List Nat) (hi : inRange m.n idx = true) :
+    m.coordField idx = m.centre idx := by
+  obtain ⟨hr, hn, hpos⟩ := hm
+  unfold coordField centre
+  apply tab_congr; intro a ha
+  have hlt : idx.getD a 0 < m.nAt a := inRange_getD m.n idx hi a (by rw [hn]; exact ha)
+  rw [cells_eq_centres m a ha (hpos a ha) _ hlt]
+  unfold centreAx
+  push_cast
+  ring
+
+/-- **The cells fill the region's volume exactly**: `len(mesh) · dV = volume(region)`. -/
+theorem volume_tiles (m : Mesh) (hm : m.Inv) : (m.len : Rat) * m.dV = m.region.volume := by
+  obtain ⟨hr, hn, hpos⟩ := hm
+  have hnt : m.n = tab m.ndim m.nAt := eq_tab_of_getD m.n m.ndim m.nAt 0 hn (fun _ _ => rfl)
+  unfold len dV Region.volume cell Region.edges
+  rw [natProd_cast]
+  conv_lhs => rw [hnt]
+  unfold tab
+  rw [List.map_map, ratProd_map_mul]
+  congr 1
+  apply List.map_congr_left
+  intro a ha
+  exact cells_cover_edges m a (hpos a (List.mem_range.mp ha))
+
+/-! non-vacuity: a concrete anisotropic 2-d mesh ([-1, 2] × [0, 1/2], n = (3, 2), cells 1 × 1/4)
+meets `Inv`; the point (7/4, 1/2) lies on the closed upper face and is found in the last cell -/
+def exMesh : Mesh :=
+  { region := { pmin := [-1, 0], pmax := [2, 1/2], dims := ["x", "y"], units := ["m", "m"], tol := 1/1000000000000 },
+    n := [3, 2], bc := "", subs := [] }
+
+example : exMesh.Inv := mesh_inv_of_invB _ (by decide +kernel)
+example : exMesh.point2index [7/4, 1/2] = .ok [2, 1] := by decide +kernel
+example : exMesh.region.containsExact [7/4, 1/2] := by
+  refine ⟨rfl, ?_⟩
+  intro a ha
+  have : a = 0 ∨ a = 1 := by
+    have : a < 2 := ha
+    omega
+  rcases this with rfl | rfl <;> decide +kernel
+example : exMesh.coordField [2, 1] = [3/2, 3/8] ∧ exMesh.centre [2, 1] = [3/2, 3/8] := by decide +kernel
+example : (exMesh.len : Rat) * exMesh.dV = 3/2 ∧ exMesh.region.volume = 3/2 := by decide +kernel
 
 /-! ## rounded arithmetic (section 4 of DESIGN.md) -/
 
